@@ -319,3 +319,57 @@ def c07(tier, replay=None):
     chk.assumptions += ["random initialisation is only constrained as far as the property goes (init expressions hold; same seed, same values)",
                         "restore may or may not restore inputs (trait doc and code disagree; the property is silent)"]
     return chk.finish()
+
+
+# ------------------------------------------------------------------------------------------------
+def batch_check(chk, module, trace, sigf, detailf, shards=12, kinds=("reject",)):
+    """validate a stateless batch trace; report every TLC rejection"""
+    rejects, st = pv.validate(module, pv.SPEC / "Trace.cfg", trace, shards=shards, kinds=kinds)
+    harness_rejects(rejects)
+    chk.add_states(st["generated"], st["distinct"])
+    lines = None
+    for rj in rejects:
+        if lines is None:
+            lines = Path(trace).read_text().splitlines()
+        rec = json.loads(lines[rj["l"] - 1])
+        chk.report(sigf(rj, rec), detailf(rj, rec))
+    return st
+
+
+def sample_lines(chk, trace, n=3, proj=lambda r: r):
+    lines = Path(trace).read_text().splitlines()
+    for i in range(0, len(lines), max(1, len(lines) // n)):
+        chk.sample(proj(json.loads(lines[i])))
+    return len(lines)
+
+
+def c16(tier, replay=None):
+    chk = Check("C16", tier, "model_checking")
+    T = chk.thorough()
+    # (M) printer + reader line-state machine over abstract witnesses; the same run emits every stream (G)
+    cfg = pv.write_cfg(chk.work / "WitnessReader.cfg", invariants=("RoundTrip", "NoPanic"))
+    r = pv.tlc_ok("WitnessReader", cfg, workers=8, timeout=1800)
+    chk.add_states(r.generated, r.distinct)
+    chk.part("WitnessReader_model", states=r.distinct)
+    streams, gen, dist = pv.generate("WitnessReader", {}, "witstreams", invariants=("EmitWs",), workers=4, deps=["WitnessReader"])
+    trace = chk.work / "trace.ndjson"
+    if replay:
+        rep = json.loads(Path(replay).read_text())
+        pv.write_ndjson(trace, [rep["detail"]["record"]])
+        info = {"records": 1}
+    else:
+        pv.write_ndjson(chk.work / "in.ndjson", streams)
+        p = pv.pv(["c16", "--in", chk.work / "in.ndjson", "--out", trace, "--random", 30000 if T else 4000])
+        info = json.loads(p.stdout.strip().splitlines()[-1])
+    st = batch_check(chk, "Trace_C16", trace, lambda rj, rec: {"why": rj["why"], "loc": rj.get("loc", "")[:120]},
+                     lambda rj, rec: {"record": rec, "tlc": rj})
+    chk.cov["traces_validated_against_impl"] = st["records"]
+    chk.cov["evaluations"] = st["records"]
+    chk.cov["distinct_nontrivial"] = st["records"]
+    chk.cov["rule"] = (f"all {len(streams)} witness streams of the WitnessReader model (1-2 witnesses, bv / array states with 1-2 recorded entries incl. "
+                       "zero-valued, 0-2 inputs x 1-2 steps, parse_max 1-2) at three width profiles + seeded random streams (up to 129-bit values, "
+                       "65-bit indices, overwritten and zero entries, parse_max <= stream length)")
+    sample_lines(chk, trace, 2, lambda r: {"id": r["id"], "text": r["text"], "parse_max": r["parse_max"]})
+    chk.part("harness", **info)
+    chk.assumptions += ["domain: complete witnesses (>= 1 failed property, a value for every input, >= 1 recorded index per array state, bit-vector inputs)"]
+    return chk.finish()
